@@ -23,6 +23,7 @@ import (
 	"net/url"
 	"os"
 	"runtime"
+	"runtime/debug"
 	"sort"
 	"strconv"
 	"strings"
@@ -538,7 +539,13 @@ func cvxNewWorld() *cvxWorld {
 		Timeout:       120 * time.Second, // safety net only: expiry is an error record, never a verdict
 	}
 	// like transport.NewTransport(nil) in main, with a larger idle pool
-	w.upTr = &http.Transport{Dial: (&net.Dialer{}).Dial, MaxIdleConnsPerHost: 64, MaxIdleConns: 1024}
+	w.upTr = &http.Transport{Dial: func(network, addr string) (net.Conn, error) {
+		c, err := (&net.Dialer{}).Dial(network, addr)
+		if err != nil {
+			return nil, err
+		}
+		return &cvxDbgConn{Conn: c}, nil
+	}, MaxIdleConnsPerHost: 64, MaxIdleConns: 1024}
 	w.oldTable = route.GetTable()
 	w.oldHTML = noroute.GetHTML()
 	return w
@@ -1194,3 +1201,18 @@ func (rn *cvxRunner) run(t *testing.T) {
 }
 
 var errCvxTimeout = errors.New("timeout")
+
+type cvxDbgConn struct{ net.Conn }
+
+func (c *cvxDbgConn) Close() error {
+	log.Printf("CLOSE %s\n%s", c.Conn.LocalAddr(), debug.Stack())
+	return c.Conn.Close()
+}
+
+func (c *cvxDbgConn) Write(b []byte) (int, error) {
+	n, err := c.Conn.Write(b)
+	if err != nil {
+		log.Printf("WRITEERR %s: %v", c.Conn.LocalAddr(), err)
+	}
+	return n, err
+}
